@@ -169,7 +169,8 @@ LEVEL["C10"] = ("Decides the structural clause of C10 only: O_NONBLOCK set for a
 def check_C10(ctx):
     for cfg, F in ctx.configs(["K1", "K2"]):
         recv.rule_nb_pair(ctx, cfg, F)
-        ctx.rule("NB-PAIR").floor("setfl_sites[%s]" % cfg, 2, cfg)
+        recv.rule_nb_mode(ctx, cfg, F)
+        ctx.rule("NB-MODE").floor("recvmsg_paths[%s]" % cfg, 3, cfg)
         recv.rule_followup_blocking(ctx, cfg, F)
         ctx.rule("FOLLOWUP-BLOCKING").floor("followup_reads[%s]" % cfg, 1, cfg)
         recv.rule_timeout_arm(ctx, cfg, F)
